@@ -1,6 +1,8 @@
 package props
 
 import (
+	"encoding/base64"
+
 	"verif/vlib"
 )
 
@@ -11,9 +13,17 @@ type regCase struct {
 	Name   string `json:"name"`
 	Source string `json:"source"`
 	Expect string `json:"expect"` // "accept" | "reject"
+	// SourceB64 replaces Source when the text is not valid UTF-8 (JSON replay
+	// files cannot hold such bytes).
+	SourceB64 string `json:"source_b64,omitempty"`
 }
 
 func regCheck(c regCase, info *vlib.Info) *vlib.Failure {
+	if c.SourceB64 != "" {
+		if b, err := base64.StdEncoding.DecodeString(c.SourceB64); err == nil {
+			c.Source = string(b)
+		}
+	}
 	info.NonTrivial = true
 	info.Class("regression-text")
 	res := vlib.Run(vlib.Single(c.Source))
@@ -40,14 +50,53 @@ func runRegression(h *vlib.H, cases []regCase) {
 }
 
 var c11Regression = []regCase{
-	{"F17-second-response-body", "JSIGHT 0.3\nGET /a\n  200\n    Body any\n    Body any\n", "reject"},
-	{"F18-enum-without-name", "JSIGHT 0.3\nENUM\n[1, 2]\n", "reject"},
-	{"F37-second-path-after-childs-path", "JSIGHT 0.3\nURL /a/{x}/{y}/{z}\n(\n  Path\n  {\"x\": 1}\n  GET\n  (\n    Path\n    {\"y\": 2}\n    200 any\n  )\n  Path\n  {\"z\": 3}\n)\n", "reject"},
-	{"F38-url-tags-undefined-but-overridden", "JSIGHT 0.3\nTAG @g\nURL /a\n  Tags @nope\n  GET\n    Tags @g\n    200 any\n", "reject"},
-	{"F38-url-tags-without-parameter", "JSIGHT 0.3\nTAG @g\nURL /a\n  Tags\n  GET\n    Tags @g\n    200 any\n", "reject"},
+	{Name: "F17-second-response-body", Source: "JSIGHT 0.3\nGET /a\n  200\n    Body any\n    Body any\n", Expect: "reject"},
+	{Name: "F18-enum-without-name", Source: "JSIGHT 0.3\nENUM\n[1, 2]\n", Expect: "reject"},
+	{Name: "F37-second-path-after-childs-path", Source: "JSIGHT 0.3\nURL /a/{x}/{y}/{z}\n(\n  Path\n  {\"x\": 1}\n  GET\n  (\n    Path\n    {\"y\": 2}\n    200 any\n  )\n  Path\n  {\"z\": 3}\n)\n", Expect: "reject"},
+	{Name: "F38-url-tags-undefined-but-overridden", Source: "JSIGHT 0.3\nTAG @g\nURL /a\n  Tags @nope\n  GET\n    Tags @g\n    200 any\n", Expect: "reject"},
+	{Name: "F38-url-tags-without-parameter", Source: "JSIGHT 0.3\nTAG @g\nURL /a\n  Tags\n  GET\n    Tags @g\n    200 any\n", Expect: "reject"},
 }
 
 var c04Regression = []regCase{
-	{"F25-enum-and-forward-type-reference", "JSIGHT 0.3\nENUM @e\n[1]\nTYPE @a\n{\"x\": @b}\nTYPE @b\n{}\n", "accept"},
-	{"F15-enum-used-in-later-referenced-type", "JSIGHT 0.3\nTYPE @a\n{\"x\": @b}\nTYPE @b\n{\n  \"y\": 1 // {enum: @e}\n}\nENUM @e\n[1, 2]\n", "accept"},
+	{Name: "F25-enum-and-forward-type-reference", Source: "JSIGHT 0.3\nENUM @e\n[1]\nTYPE @a\n{\"x\": @b}\nTYPE @b\n{}\n", Expect: "accept"},
+	{Name: "F15-enum-used-in-later-referenced-type", Source: "JSIGHT 0.3\nTYPE @a\n{\"x\": @b}\nTYPE @b\n{\n  \"y\": 1 // {enum: @e}\n}\nENUM @e\n[1, 2]\n", Expect: "accept"},
+}
+
+// pairCase: two hand-written documents that say the same.
+type pairCase struct {
+	Name string `json:"name"`
+	A    string `json:"a"`
+	B    string `json:"b"`
+}
+
+func pairCheck(c pairCase, info *vlib.Info) *vlib.Failure {
+	info.NonTrivial = true
+	info.Class("regression-pair")
+	ra, rb := vlib.Run(vlib.Single(c.A)), vlib.Run(vlib.Single(c.B))
+	if f := sameOutcome("regression "+c.Name, c.A, c.B, ra, rb); f != nil {
+		f.Key = "regression: " + c.Name
+		return f
+	}
+	return nil
+}
+
+func runPairRegression(h *vlib.H, cases []pairCase) {
+	vlib.Enum(h, "regression-pairs", false, func(yield func(pairCase) bool) {
+		for i, c := range cases {
+			if h.Mine(i) && !yield(c) {
+				return
+			}
+		}
+	}, pairCheck)
+}
+
+var c07Pairs = []pairCase{
+	{"F22-enum-of-pasted-macro-order",
+		"JSIGHT 0.3\nENUM @e2\n[2]\nMACRO @m\n(\n  ENUM @e1\n  [1]\n)\nPASTE @m\n",
+		"JSIGHT 0.3\nENUM @e2\n[2]\nENUM @e1\n[1]\n"},
+}
+
+var c09Regression = []regCase{
+	{Name: "F14-jsonrpc-id-collision", Source: "JSIGHT 0.3\nURL /c\n  Protocol json-rpc-2.0\n  Method \"a /b\"\n    Params\n    {}\nURL \"/b /c\"\n  Protocol json-rpc-2.0\n  Method a\n    Params\n    {}\n", Expect: "reject"},
+	{Name: "F33-invalid-utf8-paths-collide", Source: "JSIGHT 0.3\nGET \"/a\xff\"\n  200 any\nGET \"/a\xfe\"\n  200 any\n", Expect: "reject"},
 }
